@@ -55,6 +55,23 @@ func NewSigner(kind string) (crypto.Signer, error) {
 	case "ed25519":
 		_, k, err := ed25519.GenerateKey(rand.Reader)
 		return k, err
+	case "ed25519-public-half-begins-with-white-space", "ed25519-public-half-ends-with-white-space", "ed25519-seed-begins-with-white-space":
+		// raw key bytes are arbitrary bytes: one in twenty keys begins or ends with a byte that happens
+		// to be ASCII white space
+		ws := func(b byte) bool { return b == ' ' || (b >= 0x09 && b <= 0x0d) }
+		for try := 0; try < 100000; try++ {
+			pub, k, err := ed25519.GenerateKey(rand.Reader)
+			if err != nil {
+				return nil, err
+			}
+			switch {
+			case strings.Contains(kind, "public-half-begins") && ws(pub[0]),
+				strings.Contains(kind, "public-half-ends") && ws(pub[len(pub)-1]),
+				strings.Contains(kind, "seed-begins") && ws(k.Seed()[0]):
+				return k, nil
+			}
+		}
+		return nil, fmt.Errorf("no such key found")
 	}
 	return nil, fmt.Errorf("unknown kind %s", kind)
 }
